@@ -222,9 +222,11 @@ class SeqCheck:
     def extra_build(self):
         return True
 
+    test_binary = False   # harness is a Go test (needed for testing/synctest)
+
     def variants(self):
         """list of (binary name, extra harness args); every variant runs corpus and generated histories"""
-        return [(self.hbin, [])]
+        return [(self.hbin, ["-test.run", "^TestHarness$"] if self.test_binary else [])]
 
     def run_harness(self, args, out, variant=None):
         hbin, extra = variant or self.variants()[0]
@@ -256,7 +258,7 @@ class SeqCheck:
         os.makedirs(BIN, exist_ok=True)
         return go_build(os.path.join(VERIF, "harness", self.harness), os.path.join(BIN, self.hbin),
                         tags="verif" if self.overlay else self.build_tags,
-                        overlay=self.overlay_file()) and self.extra_build()
+                        overlay=self.overlay_file(), test_pkg="." if self.test_binary else None) and self.extra_build()
 
     def evaluate(self, lines):
         """lines: 'conf # ops # obs' from the implementation. Returns per-line
